@@ -2010,7 +2010,7 @@ def cli_hook(vfs, argv):
             if flag in av:
                 return SOME(Ref([RString(av[flag])], 0))
             return NONE()
-        if c.startswith('Path::new') or re.match(r'<(PathBuf|OsString) as From<.*>>::from$', c) or c.startswith('PathBuf::from') or c.startswith('PathBuf::new'):
+        if c.startswith('Path::new') or c.startswith('OsStr::new') or re.match(r'<(PathBuf|OsString) as From<.*>>::from$', c) or c.startswith('PathBuf::from') or c.startswith('PathBuf::new'):
             return as_str(a0) if args else ''
         if c.startswith('PathBuf::push'):
             q = as_str(args[1])
